@@ -4,6 +4,9 @@
 // This file holds comments and nothing else; it is compiled only with -tags verif.
 package genql
 
+// every function of the package: error results are propagated (C19)
+//@ package-wide errors[C19]
+
 // ---------------------------------------------------------------------------
 // plsql.go: the pipeline
 
@@ -16,6 +19,7 @@ package genql
 //@   requires opts: query.options != nil
 //@   requires wf: query.limitDefinition >= -1 && query.offsetDefinition >= -1
 //@   safety[C05] at rs[offset:]
+//@   ensures no-partial-result[C19]: err != nil ==> result == nil
 //@   loop 0 ascending-range rows[C20,C01,C02]: query.from
 //@   ensures window.len[C05]: err == nil && !old(query.dual) ==> called(ExecOrderBy) && typeis(result, []any) &&
 //@     | len(result.([]any)) == min(ite(old(query.limitDefinition) == -1, len(callresult(ExecOrderBy, 0)), old(query.limitDefinition)),
@@ -255,3 +259,44 @@ package genql
 
 //@ func FuncArgReader
 //@   loop 0 ascending-range args[C20,C18]: selectExprs
+
+// ---------------------------------------------------------------------------
+// error hand-off of goroutines and deliberately unreported errors (C19)
+
+//@ func (*Join).JoinMatchFunc
+//@   ensures err-not-ok[C19,C04]: err != nil ==> !result0
+
+//@ func (*Join).HashJoinMatchFunc
+//@   ensures err-not-ok[C19,C04]: err != nil ==> !result0
+
+//@ func (*Join).ParallelJoinFunc$1
+//@   absorbs (*Join).JoinMatchFunc : recorded in firstErr (clause recorded), returned by the parent after wg.Wait
+//@   ensures recorded[C19,C10]: called(JoinMatchFunc) && callresult(JoinMatchFunc, 2) != nil ==> firstErr != nil
+
+//@ func (*Join).ParallelHashJoinFunc$1
+//@   absorbs (*Join).HashJoinMatchFunc : recorded in firstErr (clause recorded), returned by the parent after wg.Wait
+//@   ensures recorded[C19,C10]: called(HashJoinMatchFunc) && callresult(HashJoinMatchFunc, 2) != nil ==> firstErr != nil
+
+//@ func FunExpr$2
+//@   absorbs (dynamic github.com/vedadiyan/genql.Function) : the result of an ASYNC call is delivered through its slot; the statement of C19 excludes ASYNC/SPIN calls
+
+//@ func FunExpr$3
+//@   absorbs (dynamic github.com/vedadiyan/genql.Function) : SPIN errors go to the UnReportedErrors handler by design
+
+//@ func FunExpr$4
+//@   absorbs (dynamic github.com/vedadiyan/genql.Function) : SPINASYNC errors go to the UnReportedErrors handler by design
+
+//@ func DecodeFunc
+//@   absorbs (*bytes.Buffer).Write : bytes.Buffer.Write always returns a nil error (documented)
+
+//@ func (*Query).execAndPostProcess
+//@   ensures no-partial-result[C19]: err != nil ==> result == nil
+
+//@ func (*Query).Exec
+//@   ensures no-partial-result[C19]: err != nil ==> len(result) == 0 && ref(result) == nil
+
+//@ func New
+//@   ensures no-partial-result[C19]: result1 != nil ==> result == nil
+
+//@ func Prepare
+//@   ensures no-partial-result[C19]: result1 != nil ==> result == nil
